@@ -48,9 +48,9 @@ def value_corpus(knames):
 
 
 @st.composite
-def static_ann(draw, knames, depth=1, extra=("object", "int", "str", "PA", "PB", "Number")):
+def static_ann(draw, knames, depth=1, extra=("object", "int", "str", "PA", "PB", "Number"), kinds=None):
     names = list(knames) * 3 + list(extra)
-    k = draw(st.sampled_from(["cls"] * 8 + ["obj", "union", "inter", "exactly", "strict", "hasmethod"]))
+    k = draw(st.sampled_from(kinds or (["cls"] * 8 + ["obj", "union", "inter", "exactly", "strict", "hasmethod"])))
     if depth <= 0 and k in ("union", "inter"):
         k = "cls"
     if k == "cls":
@@ -59,7 +59,7 @@ def static_ann(draw, knames, depth=1, extra=("object", "int", "str", "PA", "PB",
         return ["obj"]
     if k in ("union", "inter"):
         n = draw(st.integers(2, 3))
-        return [k, [draw(static_ann(knames, depth - 1, extra)) for _ in range(n)]]
+        return [k, [draw(static_ann(knames, depth - 1, extra, kinds)) for _ in range(n)]]
     if k in ("exactly", "strict"):
         return [k, draw(st.sampled_from(list(knames) + ["int", "str"]))]
     return ["hasmethod", draw(st.sampled_from(["mA", "mB", "__len__", "keys"]))]
